@@ -11,6 +11,23 @@ Tie: the driver evaluates the generated definitions at `Float` through the hand-
 model of `_generate_window_strategies` (registry, aliases, defaults) and sends the exact
 binary values; they are compared with the lists the real strategies return.
 
+T2 regenerates ALL the data `exec` consumes: per table row the names / aliases, the `distinct` flag, the parameter list
+its `params_def` text adds (names, exact default values, int or float literal), the formula; per code template the
+body in three modes (size an index / a number without `__index__` / no number) AND its signature (`size` first,
+where `{params_def}` is spliced in); the module-level dictionary links.  The Props file proves, by `decide` over these
+tables, what the property says about them (`table_names`, `signatures`, `template_signatures`, `alpha_default_values`,
+`dict_links_table`, `defaults`, `default_route`, `link_routes`, `function_links`).  The text of the loop
+`_generate_window_strategies` itself is code, hand-modelled (`ALV.C14.genStep`); its AST is pinned (LOOP_AST_SHA1).
+
+Call layer (entry "pycall"): a call as the caller WRITES it — access route (`sd[name]`, `sd.name`, `sd(...)`,
+`sd.default(...)`, `sd.symm[name]`, `sd[name].periodic`, ...), positional / keyword / omitted arguments, the Python
+value of each argument (int, bool, float, Fraction, None, str) — goes through the model of the call layer
+(`ALV.C14.pyCall`: binding against the regenerated signature, the regenerated template for the kind of value `size`
+is, TypeError for a non-numeric alpha exactly when a sample uses it) and, reduced by the DOCUMENTED rules
+(`_spec_call`), through the specification.  Entry "scan": facts about the real float lists for all sizes of a range,
+compared with NO tolerance (range [0,1], length, periodic prefix) or the few-ulp bound of the trigonometric windows
+(symmetry; bit-exact for rect / bartlett / triangular).
+
 Histories (entry "history"): the property fixes `window.X(size)` / `wsymm.X(size)` as a function of
 the arguments of EACH call.  A history is 1..4 calls to the same and to related strategies (aliases,
 `.periodic` / `.symm` links, window vs wsymm, same size / size+1, other spelling of alpha) between
@@ -509,7 +526,21 @@ def regenerate(eng=None):
     """Rewrite lean/ALV/Gen/Windows.lean from the repo under test.  On a translation failure the
     previous (compilable) file is left in place and the error propagates (= broken obligation)."""
     path = os.path.join(common.LEAN, GEN_REL)
-    text = translate(*read_source())
+    try:
+        text = translate(*read_source())
+    except Exception:
+        # leave the last COMMITTED translation in place (not whatever an earlier run on another copy of the repo wrote):
+        # the driver and the theorems then speak about the last state of the repo that could be translated
+        try:
+            import subprocess
+            good = subprocess.run(["git", "-C", common.VERIF, "show", "HEAD:lean/" + GEN_REL.replace(os.sep, "/")],
+                                  capture_output=True, text=True, timeout=30)
+            if good.returncode == 0 and good.stdout and (not os.path.exists(path) or open(path).read() != good.stdout):
+                with open(path, "w") as f:
+                    f.write(good.stdout)
+        except Exception:
+            pass
+        raise
     old = open(path).read() if os.path.exists(path) else None
     if old != text:
         os.makedirs(os.path.dirname(path), exist_ok=True)
@@ -530,12 +561,28 @@ RULE = ("every (dictionary, name/alias, size) for sizes 0..96 plus sampled sizes
         "the window(size)/wsymm(size+1) prefix pair, size+-1, other alpha / other spelling of the same alpha, other "
         "strategy) with the caller changing the returned lists in place between the calls (append first sample, scale, "
         "sort, clear, NaN, decrement last, pop, double, nothing): exhaustive over (dictionary, name, size 1/4, mutation) "
-        "for call-mutate-call, the docstring recipe for every strategy, random ones; each call against the model/spec of "
+        "for call-mutate-call, the docstring recipe for every strategy, random ones; plus CALLS AS WRITTEN (pycall): every "
+        "strategy x every call shape ((size), (size, alpha), (size, alpha=), (size=), (size=, alpha=), (alpha=, size=) and 7 "
+        "malformed ones) x 23 alpha spellings (0 / 0.0 / Fraction(0) / False, the defaults as int / float / Fraction / bool, "
+        "the ends of the documented range, negative, 10**6, None, a str) at sizes 1 and 4/5, every strategy name x 17 size "
+        "spellings (0, 1, 2, 3, 8, True, False, 4.0, 1.0, 2.5, Fraction(4), Fraction(1), Fraction(7,2), -1, -5, None, str), "
+        "6 access routes x 3 shapes x 3 sizes, cos with alpha = 0 in 4 spellings x 9 sizes, random mixes; plus SCANS of all "
+        "sizes 0..200 (quick) / 0..3000 (thorough; given alphas to half of that) per strategy and alpha grid with exact "
+        "float comparisons; each call against the model/spec of "
         "that call alone + object identity checks.  Non-trivial: the impl returns a list of at least 2 samples (history: "
         "at least 2 calls, one with 2 samples); distinct = distinct JSON case")
 TRUSTED = [
     "translator T2 (harness/props/c14.py: ast -> lean/ALV/Gen/Windows.lean), cross-checked on every run: the generated "
-    "definitions are evaluated at Float by the driver and compared with the lists the real strategies return",
+    "definitions are evaluated at Float by the driver and compared with the lists the real strategies return; the "
+    "regenerated signatures / dictionary links are compared with inspect.signature / the attributes of the running objects",
+    "model of Python's argument binding for `def f(p1, p2=d)` (ALV.C14.bind) and of the kinds of values (`__index__` only "
+    "for int / bool; None and str support no arithmetic; `==` between a number and 1 by value): modelled, tied by the pycall "
+    "cases; `f(*pos, **kw)` is how every case calls (so `*args` of any length is the positional form)",
+    "a float argument is given to the model by its exact rational value (float size: only `== 1` and the TypeError matter; "
+    "float alpha: p/q with p, q < 2^53 * 2^k converts back to the same double); inf / nan / complex arguments and ints "
+    "beyond float range are not modelled",
+    "the loop `_generate_window_strategies` is hand-modelled; the check pins the sha1 of its AST, an edit there is a broken "
+    "obligation until the model is re-read against it",
     "hand-written Lean model ALV/Model/C14.lean of _generate_window_strategies and of the part of StrategyDict it uses "
     "(modelled, not verified: exec, MultiKeyDict internals, function attributes)",
     "Float instance of TrigField (libm cos/sin/pow through the Lean runtime) is only used on the correspondence side; "
@@ -547,8 +594,17 @@ TRUSTED = [
     "the imported objects in a child of a forked copy of the harness process made before any strategy call",
 ]
 ASSUMPTIONS = [
-    "theorems are over R (Mathlib); float rounding is bounded only by the comparator (1e-12 relative), "
-    "except the periodic-prefix relation, which is syntactic and is checked bit-exactly on the impl",
+    "theorems are over R (Mathlib).  On the impl: model (Float twin) vs impl within 1e-12 (bit-exact in practice, see "
+    "histogram py_float_twin); range [0,1] with NO tolerance (a sample outside by <= 1e-12 is reported under the clause "
+    "range-float-noise(...), by more under range); periodic prefix and wsymm.X(1) == [1.0] bit-exact; symmetry bit-exact "
+    "for rect / bartlett / triangular (`abs(n - size/2.0)` is exact), within 4e-15 for hann / hamming / blackman / cos, "
+    "whose two mirrored arguments of cos/sin are rounded separately (largest difference seen up to size 4096: 7.8e-16), "
+    "scaled by |alpha| and conditioning-aware for cos with 0 < alpha < 1",
+    "the [0,1] clause is read literally on floats: window.blackman(size, alpha)[0] == -2**-54 for some alphas in the "
+    "documented range (not the default) is recorded as a known finding with a proposed fix, not absorbed by a tolerance",
+    "sizes: the property quantifies over integer sizes; what the code does with other values is modelled and tied but not "
+    "specified: float / Fraction / None / str sizes raise TypeError, except that the symmetric template returns [1.0] for "
+    "any number EQUAL to 1 (wsymm.hann(1.0), wsymm.hann(Fraction(1))); bool is an int; sizes <= 0 give []",
     "range [0,1]: blackman for alpha in [-1/4, 1/4], cos for alpha >= 0 (outside, the closed forms really leave [0,1])",
     "a strategy is specified as a function of the arguments of each call: the caller owns the returned list (the "
     "docstring of every periodic window tells it to append the first sample), so a history in which an earlier result "
@@ -556,8 +612,13 @@ ASSUMPTIONS = [
     "wsymm lacks the aliases 'dirichlet'/'rectangular' of the shared rect strategy (DESIGN.md section 8: observation, "
     "not counted as a violation); the tie accepts KeyError or the rect list there and counts it in the histogram",
 ]
-MANIFEST = {"technique": "Lean 4 proofs over definitions regenerated from the repo's formula table and code templates "
-                         "(translator) + Float twin differential correspondence"}
+MANIFEST = {"technique": "Lean 4 proofs over definitions regenerated from the repo's formula table, parameter lists, code "
+                         "templates (body and signature) and dictionary links (translator) + model of the Python call "
+                         "layer + Float twin differential correspondence + exact float scans",
+            "note": "61 theorems: registry / links / defaults / signatures by decide over the regenerated tables; call layer "
+                    "(positional = keyword, omitted = default, bool = int, spelling-independence over R, rejected sizes, "
+                    "alpha=None, malformed shapes); closed forms, prefix, symmetry, range, COLA for all sizes over R; "
+                    "histories.  Known finding: blackman end sample -2**-54 for some alphas."}
 
 LOOP_AST_SHA1 = "93fecf35eb15520121969fb0560df4c61667d224"      # ast.dump of the body of _generate_window_strategies
 TOL = Fraction(1, 10 ** 12)
@@ -1550,7 +1611,13 @@ def _py_lookup(c):
     if route.startswith("dictlink"):
         sd = getattr(sd, route.split(":")[1])
         return sd[name]
-    f = sd[name] if acc == 0 or not name else getattr(sd, name)
+    if acc == 0 or not name:
+        f = sd[name]
+    else:
+        try:
+            f = getattr(sd, name)
+        except AttributeError:              # `sd.name` for a name the dictionary lacks: the same "no such strategy"
+            raise KeyError(name)
     if route.startswith("funclink"):
         return getattr(f, route.split(":")[1])
     return f
